@@ -10,6 +10,11 @@ from .absint import Val, MAX_CONCRETE_ITERS
 from .absint_ops import Machine
 
 
+def facts_word():
+    from .facts import WORD
+    return WORD
+
+
 MAX_LOOP_STATES = 24
 
 
@@ -645,7 +650,15 @@ class LoopMachine(Machine):
                       and not s2.tags.get('retained:' + oid)]
             self.oblige(not leaked, 'loop-leak', s, 'object(s) %s allocated in loop %s are still live at the end of an iteration' % (leaked, lid))
         for s2 in brk:
-            pass
+            # how the loop was left stays visible to the rules (the cursor local is gone by the time the function returns)
+            s2.tags = dict(s2.tags)
+            nulls = []
+            for oid_, ob_ in s2.objs.items():
+                if oid_.startswith('L:'):
+                    for key_, (w_, t_) in ob_.cells.items():
+                        if w_ == facts_word() and not key_[0] and s2.canon(t_) == ZERO:
+                            nulls.append(oid_)
+            s2.tags['left-by-break:' + lid] = tuple(sorted(set(nulls))) or True
         loop_eff = ('loop', lid, tuple(sorted(iter_traces, key=repr)))
         # flags a scan accumulates (1-byte cells of enclosing locals the body may write): their value on
         # leaving the loop is kept as a tag, so rules need not depend on the break-vs-condition idiom
